@@ -29,6 +29,8 @@ func main() {
 			usage()
 		}
 		os.Exit(writeTable(os.Args[3]))
+	case "dump": // debugging aid: c19 dump <ops-with-one-case> -> orig.json once.json twice.json in the cwd
+		dumpInject(os.Args[2])
 	case "gen":
 		if len(os.Args) < 6 {
 			usage()
